@@ -14,6 +14,7 @@ from .. import units as U
 from ..pool import Pool
 
 UNBOUNDED = 1e29
+ALIASES = {'Total Nonvertical Length': 'Nonvertical Length per Multilateral Section'}
 CURRENCY_TYPES = ('CURRENCY', 'CURRENCYFREQUENCY', 'ENERGYCOST', 'COSTPERMASS')
 
 FAMILIES = {
@@ -151,11 +152,17 @@ def make_probes(decl, schema, cat=None):
                                  if allow[0] < v < allow[-1] and v not in aset), None)
                     if hole is not None:
                         probes.append((name, hole, 'non-member', dom))
+    # documented alternative spellings of a parameter name (deprecated aliases the reader still accepts): the same domain binds
+    for alias, target in ALIASES.items():
+        for name, val, kind, dom in list(probes):
+            if name == target and kind in ('below-min', 'min', 'max', 'above-max', 'far-below-min', 'far-above-max') and 'text' not in dom:
+                probes.append((target, val, kind + '-via-alias', dict(dom, write_as=alias)))
     out = []
     for name, val, kind, dom in probes:
         d = dom.get('default')
+        base_kind = kind.replace('-via-alias', '')
         try:
-            if d is not None and float(getattr(d, 'int_value', d)) == float(val) and kind in ('below-min', 'above-max', 'non-member', 'far-below-min', 'far-above-max', 'above-max-other-unit', 'below-min-other-unit', 'just-above-max-other-unit', 'just-below-min-other-unit'):
+            if d is not None and float(getattr(d, 'int_value', d)) == float(val) and base_kind in ('below-min', 'above-max', 'non-member', 'far-below-min', 'far-above-max', 'above-max-other-unit', 'below-min-other-unit', 'just-above-max-other-unit', 'just-below-min-other-unit'):
                 continue                       # the documented 'not provided' sentinel
         except (TypeError, ValueError):
             pass
@@ -187,9 +194,15 @@ def probe_job(text, probes, family):
                 for e in C.READ_EVENTS:
                     if e['key'] == name and e.get('obj') is not None:
                         final['value'] = e['obj'].value
-        res = runner.run_text(text + f'\n{name}, {pr["dom"].get("text") or _fmt(val)}\n', want_snap=False, stop_after_read=True,
+        written = pr['dom'].get('write_as') or name
+        base_text_ = text
+        if pr['dom'].get('write_as'):
+            # the alias only counts when the parameter is not also given under its current name
+            base_text_ = '\n'.join(ln for ln in text.split('\n') if ln.split(',')[0].strip() != name)
+        res = runner.run_text(base_text_ + f'\n{written}, {pr["dom"].get("text") or _fmt(val)}\n', want_snap=False, stop_after_read=True,
                               callbacks=(at_end_of_read,))
-        evs = [e for e in C.READ_EVENTS if e['key'] == name]
+        evs = [e for e in C.READ_EVENTS if e['key'] in (name, written) or e['name'] == name]
+        kind = kind.replace('-via-alias', '')
         in_domain = kind in ('min', 'max', 'declared-default')
         wit = {'family': family, 'parameter': name, 'value': val, 'kind': kind, 'domain': pr['dom'],
                'outcome': res.exc_type, 'message': (res.exc_msg or '')[:200]}
@@ -273,7 +286,7 @@ def probe_job(text, probes, family):
                 mon.bad('out-of-range-rejected', mechanism='C07/out-of-range-value-accepted:' + sym, after=after_f, **wit)
             else:
                 mon.ok('out-of-range-rejected')
-                mon.check('error-names-parameter', name in (res.exc_msg or ''),
+                mon.check('error-names-parameter', name in (res.exc_msg or '') or written in (res.exc_msg or ''),
                           mechanism='C07/rejection-does-not-name-the-parameter', **wit)
         if len(out_samples) < 3:
             out_samples.append(wit)
@@ -493,8 +506,9 @@ def run(ctx):
             jobs.append({'fn': 'gxv.props.c07:probe_job', 'args': {'text': text, 'probes': probes[i:i + 40], 'family': fam},
                          'timeout': 600})
         if fam in API_FAMILIES:
-            rej = [p for p in probes if p['kind'] not in ('min', 'max', 'declared-default')]
-            acc = [p for p in probes if p['kind'] in ('min', 'max', 'declared-default')]
+            direct = [p for p in probes if not p['kind'].endswith('-via-alias')]      # alias probes are read-phase only
+            rej = [p for p in direct if p['kind'] not in ('min', 'max', 'declared-default')]
+            acc = [p for p in direct if p['kind'] in ('min', 'max', 'declared-default')]
             ctx.rng.shuffle(rej)
             ctx.rng.shuffle(acc)
             take_r = rej[:max(8, len(rej) // (20 if ctx.quick else 4))]
